@@ -1,2 +1,470 @@
+"""
+Generated Modelica models with alias chains (C13): optimisation observables and simulation
+get_var/set_var sequences.  Also provides the small `.mo` writer / problem factories reused by C14.
+"""
+import logging
+import math
+import os
+import shutil
+import tempfile
+import warnings
+
+import numpy as np
+
+from .common import fr, quiet_fd, same
+
+INF = float("inf")
+
+
+# ---------------------------------------------------------------------------------------------
+# writing models
+
+
+def lit(x):
+    """Modelica literal of a python number"""
+    if isinstance(x, bool):
+        return "true" if x else "false"
+    if isinstance(x, int):
+        return str(x)
+    if isinstance(x, str):
+        return x  # an expression
+    return repr(float(x))
+
+
+def decl(v):
+    """one declaration line from a variable record: prefix, type, name, attrs (dict), value"""
+    attrs = ", ".join("%s = %s" % (k, lit(val)) for k, val in v.get("attrs", {}).items())
+    s = "  %s%s %s" % (v.get("prefix", "") + (" " if v.get("prefix") else ""), v.get("type", "Real"), v["name"])
+    if attrs:
+        s += "(" + attrs + ")"
+    if "value" in v:
+        s += " = " + lit(v["value"])
+    return s + ";"
+
+
+def write_mo(folder, name, variables, equations, initial_equations=()):
+    lines = ["model " + name]
+    lines += [decl(v) for v in variables]
+    if initial_equations:
+        lines.append("initial equation")
+        lines += ["  " + e + ";" for e in initial_equations]
+    lines.append("equation")
+    lines += ["  " + e + ";" for e in equations]
+    lines.append("end " + name + ";")
+    path = os.path.join(folder, name + ".mo")
+    with open(path, "w") as f:
+        f.write("\n".join(lines) + "\n")
+    return "\n".join(lines)
+
+
+class Scratch:
+    def __enter__(self):
+        self.dir = tempfile.mkdtemp(prefix="rtcverif_mo_")
+        return self.dir
+
+    def __exit__(self, *a):
+        shutil.rmtree(self.dir, ignore_errors=True)
+
+
+def silence():
+    logging.getLogger("rtctools").setLevel(logging.CRITICAL)
+    warnings.filterwarnings("ignore")
+
+
+def opt_class(times, extra=None, mixins=()):
+    """ModelicaMixin optimisation problem class with the disk cache off"""
+    silence()
+    from rtctools.optimization.collocated_integrated_optimization_problem import (
+        CollocatedIntegratedOptimizationProblem,
+    )
+    from rtctools.optimization.modelica_mixin import ModelicaMixin
+
+    tarr = np.array(times, dtype=float)
+
+    class P(*mixins, ModelicaMixin, CollocatedIntegratedOptimizationProblem):
+        def compiler_options(self):
+            o = super().compiler_options()
+            o["cache"] = False
+            return o
+
+        def times(self, variable=None):
+            return tarr
+
+        def solver_options(self):
+            o = super().solver_options()
+            o["ipopt"] = dict(o.get("ipopt", {}), print_level=0, sb="yes")
+            o["print_time"] = False
+            return o
+
+    if extra:
+        for k, v in extra.items():
+            setattr(P, k, v)
+    return P
+
+
+def sim_class(extra=None):
+    silence()
+    from rtctools.simulation.simulation_problem import SimulationProblem
+
+    class S(SimulationProblem):
+        def compiler_options(self):
+            o = super().compiler_options()
+            o["cache"] = False
+            return o
+
+    if extra:
+        for k, v in extra.items():
+            setattr(S, k, v)
+    return S
+
+
+# ---------------------------------------------------------------------------------------------
+# alias model generator
+
+NOMINALS = [1.0, 2.0, 10.0, 0.5, 100.0, 4.0, 10.0, 25.0]
+EQFORMS = ["{a} = {s}{t}", "{a} = {s}{t}", "{ns}{a} = {t}", "{a} {pm} {t} = 0", "0 = {a} {pm} {t}"]
+
+
+def gen_alias_model(rng, idx):
+    """returns dict(name, variables, equations, classes={base: [(name, sign)]}, kinds={base: kind})"""
+    from .c13 import SignedUF
+
+    variables, equations = [], []
+    classes, kinds = {}, {}
+    nS = rng.choice([1, 1, 2])
+    nA = rng.choice([0, 1, 1, 2])
+    starts = {}
+    for i in range(nS):
+        n = "x%d" % i
+        start = rng.randint(-8, 8) / 4
+        attrs = {"start": start, "fixed": True}
+        if rng.random() < 0.8:
+            attrs["nominal"] = rng.choice(NOMINALS)
+        if rng.random() < 0.7:
+            attrs["min"] = float(rng.randint(-60, -10))
+            attrs["max"] = float(rng.randint(10, 90))
+        variables.append({"name": n, "attrs": attrs})
+        starts[n] = start
+        classes[n] = [(n, 1)]
+        kinds[n] = "state"
+    variables.append({"name": "u0", "prefix": "input", "attrs": dict(
+        {"fixed": False, "min": float(rng.randint(-6, -1)), "max": float(rng.randint(1, 7))},
+        **({"nominal": rng.choice(NOMINALS)} if rng.random() < 0.7 else {}))})
+    classes["u0"] = [("u0", 1)]
+    kinds["u0"] = "control"
+    for i in range(nS):
+        k = rng.choice([0.25, 0.5, 1.0])
+        g = rng.choice([1.0, 0.5, 2.0])
+        equations.append("der(x%d) = -%s*x%d + %s*u0" % (i, lit(k), i, lit(g)) + (" + 0.25*x0" if i == 1 else ""))
+    for j in range(nA):
+        n = "w%d" % j
+        attrs = {}
+        if rng.random() < 0.8:
+            attrs["nominal"] = rng.choice(NOMINALS)
+        if rng.random() < 0.5:
+            attrs["start"] = float(rng.randint(1, 9))  # non-fixed non-zero start: a seed
+        if rng.random() < 0.5:
+            attrs["min"] = float(rng.randint(-900, -300))
+            attrs["max"] = float(rng.randint(300, 900))
+        variables.append({"name": n, "attrs": attrs})
+        equations.append("%s = %s*x%d + %s" % (n, lit(rng.choice([2.0, -1.5, 0.5])), rng.randrange(nS), lit(float(rng.randint(-3, 3)))))
+        classes[n] = [(n, 1)]
+        kinds[n] = "alg"
+    # alias chains
+    k = 0
+    uf = SignedUF()
+    for base in list(classes):
+        nal = rng.choice([0, 1, 1, 2, 3]) if base != "u0" else rng.choice([0, 1, 2])
+        for _ in range(nal):
+            a = "a%d" % k
+            k += 1
+            t, st = rng.choice(classes[base])
+            sign = rng.choice([-1, -1, 1])
+            form = rng.choice(EQFORMS)
+            if form.startswith("{ns}"):
+                eq = form.format(a=a, t=t, ns="-" if sign < 0 else "")
+            elif "{pm}" in form:
+                # a + t = 0  <=> a = -t ;  a - t = 0 <=> a = t
+                eq = form.format(a=a, t=t, pm="+" if sign < 0 else "-")
+            else:
+                eq = form.format(a=a, t=t, s="-" if sign < 0 else "")
+            equations.append(eq)
+            attrs = {}
+            r = rng.random()
+            if r < 0.2:
+                attrs["min"] = float(rng.randint(-2000, -1000))
+                attrs["max"] = float(rng.randint(1000, 2000))
+            elif r < 0.3:
+                attrs["nominal"] = rng.choice(NOMINALS)
+            v = {"name": a, "attrs": attrs}
+            if rng.random() < 0.3:
+                v["prefix"] = "output"
+            variables.append(v)
+            classes[base].append((a, sign * st))
+    rng.shuffle(equations)
+    return {"name": "A%d" % idx, "variables": variables, "equations": equations, "classes": classes,
+            "kinds": kinds, "starts": starts}
+
+
+# ---------------------------------------------------------------------------------------------
+
+
+def _call(fn):
+    try:
+        return ("ok", fn())
+    except KeyError:
+        return ("KeyError", None)
+    except Exception as e:
+        return ("raise:" + type(e).__name__, str(e)[:200])
+
+
+def _dict_lines(ar, names, d, signed, default=None):
+    """model line: start from the real dict's items, read through every name (and -name)"""
+    from .c13 import rel_table, to_wire
+
+    keys = list(names) + ["-" + n for n in names]
+    if default is None:
+        ops = [{"o": "get", "k": k} for k in keys]
+    else:
+        ops = [{"o": "getD", "k": k, "v": to_wire(default)} for k in names]
+        keys = list(names)
+    init = [[k, to_wire(v)] for k, v in d]
+    return {"op": "dict", "signed": signed, "rel": rel_table(ar, names), "init": init, "ops": ops}, keys
+
+
+def check_optimisation(c, spec, folder, lines, pending):
+    from .c13 import spec_signed, to_wire
+
+    rng = c.rng
+    times = sorted(rng.sample([0.0, 0.5, 1.0, 1.5, 2.0, 3.0, 4.0], rng.randint(3, 4)))
+    times[0] = 0.0
+    target = rng.choice([n for b in spec["classes"] if spec["kinds"][b] == "state" for n, _ in spec["classes"][b]])
+
+    def objective(self, ensemble_member):
+        return (self.state_at(target, self.times()[-1], ensemble_member=ensemble_member) - 1.0) ** 2
+
+    P = opt_class(times, {"objective": objective})
+    case = {"stream": "mo-opt", "model": spec["text"], "times": times, "objective_on": target}
+    with quiet_fd():
+        p = P(model_folder=folder, model_name=spec["name"], input_folder=folder, output_folder=folder)
+        r_opt = _call(p.optimize)
+    c.programs += 1
+    ar = p.alias_relation
+    allnames = [n for b in spec["classes"] for n, _ in spec["classes"][b]]
+    # pymoca must have recognised the alias equations (trusted front end; outside the property)
+    for base, members in spec["classes"].items():
+        for n, s in members:
+            cb, sb = ar.canonical_signed(base)
+            cn, sn = ar.canonical_signed(n)
+            if cb != cn or sb * sn != s:
+                c.hit("mo/alias-not-detected")
+                return
+    if r_opt[0] != "ok":
+        c.fail("optimize() raised on a generated alias model: %s" % (r_opt,), case)
+        return
+    c.hit("mo-opt/solved" if r_opt[1] else "mo-opt/solver-failed")
+    obs = {}
+    obs["bounds"] = p.bounds()
+    obs["history"] = p.history(0)
+    obs["seed"] = p.seed(0)
+    obs["results"] = p.extract_results()
+    # ---- oracle: every member of a class sees the base's value, signed
+    import casadi as ca
+
+    X = p.solver_input
+    xval = p.solver_output
+    for base, members in spec["classes"].items():
+        for what, d in obs.items():
+            rb = _call(lambda: d[base])
+            for n, s in members:
+                rn = _call(lambda: d[n])
+                c.count(("mo-opt", what, spec["kinds"][base], s, rb[0], len(members)))
+                c.hit("mo-opt/" + what)
+                if rb[0] != rn[0]:
+                    c.fail("%s: %r present through one name and absent through its alias" % (what, n), case,
+                           {"base": base, "base_result": rb[0], "alias_result": rn[0]})
+                    continue
+                if rb[0] == "ok" and to_wire(rn[1]) != spec_signed(s, to_wire(rb[1])):
+                    c.fail("%s through alias %r is not the signed value of %r" % (what, n, base), case,
+                           {"sign": s, "base": to_wire(rb[1]), "alias": to_wire(rn[1])})
+        nb = p.variable_nominal(base)
+        db = p.variable_is_discrete(base)
+        for n, s in members:
+            c.count(("mo-opt", "nominal", spec["kinds"][base], s, float(nb) != 1.0))
+            c.hit("mo-opt/nominal")
+            nn = p.variable_nominal(n)
+            if not (float(nn) == float(nb) and float(nn) > 0):
+                c.fail("nominal through alias %r differs from / is not the positive nominal of %r" % (n, base), case,
+                       {"sign": s, "base": float(nb), "alias": float(nn)})
+            if p.variable_is_discrete(n) != db:
+                c.fail("variable_is_discrete differs between %r and its alias %r" % (base, n), case)
+        # accessors: state_at through every name
+        tq = [times[0], times[-1], (times[0] + times[1]) / 2]
+        for t in tq:
+            vb = _call(lambda: float(ca.Function("f", [X], [p.state_at(base, t)])(xval)))
+            for n, s in members:
+                vn = _call(lambda: float(ca.Function("f", [X], [p.state_at(n, t)])(xval)))
+                c.count(("mo-opt", "state_at", spec["kinds"][base], s))
+                c.hit("mo-opt/state_at")
+                if vb[0] != vn[0] or (vb[0] == "ok" and not abs(vn[1] - s * vb[1]) <= 1e-12 * max(1.0, abs(vb[1]))):
+                    c.fail("state_at(%r, %s) is not the signed state_at(%r)" % (n, t, base), case,
+                           {"sign": s, "base": vb, "alias": vn})
+    # declared nominal of the base must be what every name sees (positive magnitude)
+    for v in spec["variables"]:
+        if v["name"] in spec["classes"] and "nominal" in v["attrs"]:
+            if float(p.variable_nominal(v["name"])) != abs(v["attrs"]["nominal"]):
+                c.fail("declared nominal of %r not honoured" % v["name"], case,
+                       {"declared": v["attrs"]["nominal"], "got": float(p.variable_nominal(v["name"]))})
+    # ---- correspondence: the model's AliasDict reads the same through every name
+    for what, d in obs.items():
+        line, keys = _dict_lines(ar, allnames, list(d.items()), True)
+        real = []
+        for k in keys:
+            r = _call(lambda: d[k])
+            real.append({"val": to_wire(r[1])} if r[0] == "ok" else r[0])
+        lines.append(line)
+        pending.append((case, what, real))
+    canon = sorted({ar.canonical_signed(n)[0] for n in allnames})
+    line, keys = _dict_lines(ar, allnames, [(k, float(p.variable_nominal(k))) for k in canon], False, default=1.0)
+    lines.append(line)
+    pending.append((case, "variable_nominal", [{"val": to_wire(float(p.variable_nominal(k)))} for k in keys]))
+    c.sample({"stream": "mo-opt", "model": spec["text"], "classes": spec["classes"]}, limit=5)
+
+
+def check_simulation(c, spec, folder, lines, pending):
+    from .c13 import rel_table
+
+    rng = c.rng
+    S = sim_class()
+    case = {"stream": "mo-sim", "model": spec["text"]}
+    dt = rng.choice([0.5, 1.0, 0.25])
+    with quiet_fd():
+        s = S(model_folder=folder, model_name=spec["name"], input_folder=folder, output_folder=folder)
+        s.setup_experiment(0.0, 10.0, dt)
+        # inputs are set through a random name of their class
+        for base, members in spec["classes"].items():
+            if spec["kinds"][base] == "control":
+                n, sg = rng.choice(members)
+                s.set_var(n, sg * 0.25)
+        r_init = _call(s.initialize)
+    c.programs += 1
+    ar = s.alias_relation
+    for base, members in spec["classes"].items():
+        for n, sg in members:
+            cb, sb = ar.canonical_signed(base)
+            cn, sn = ar.canonical_signed(n)
+            if cb != cn or sb * sn != sg:
+                c.hit("mo/alias-not-detected")
+                return
+    if r_init[0] != "ok":
+        c.hit("mo-sim/initialize-failed")
+        c.notes.append("initialize() failed on a generated model: %s" % (r_init,))
+        return
+    allnames = [n for b in spec["classes"] for n, _ in spec["classes"][b]]
+    order = list(s.get_variables().keys())
+    nstates = order.index("time")
+    slots = [[n, i] for i, n in enumerate(order)]
+
+    def snapshot():
+        return {n: float(s.get_var(n)) for n in allnames}
+
+    def consistent(tag):
+        snap = snapshot()
+        for base, members in spec["classes"].items():
+            nb = float(s.get_variable_nominal(base))
+            for n, sg in members:
+                c.count(("mo-sim", tag, spec["kinds"][base], sg))
+                c.hit("mo-sim/" + tag)
+                if snap[n] != sg * snap[base]:
+                    c.fail("get_var(%r) is not the signed get_var(%r) %s" % (n, base, tag), case,
+                           {"sign": sg, "base": snap[base], "alias": snap[n]})
+                nn = float(s.get_variable_nominal(n))
+                if not (nn == nb and nn > 0):
+                    c.fail("simulation nominal through alias %r differs from / is not the positive nominal of %r"
+                           % (n, base), case, {"base": nb, "alias": nn})
+        return snap
+
+    snap = consistent("after-initialize")
+    # model input: scaled vector reconstructed from physical values of the symbols
+    vec0 = []
+    for i, n in enumerate(order):
+        v = float(s.get_var(n))
+        nom = float(s.get_variable_nominal(n)) if i <= nstates else 1.0
+        vec0.append(v / nom)
+    noms = [[n, fr(float(s.get_variable_nominal(n)))] for n in order if float(s.get_variable_nominal(n)) != 1.0]
+    mops, real = [], []
+    for step in range(rng.randint(4, 8)):
+        base = rng.choice(list(spec["classes"]))
+        members = spec["classes"][base]
+        b, sb = rng.choice(members)
+        v = rng.choice([float(rng.randint(-9, 9)), rng.uniform(-20, 20), 3.0])
+        with quiet_fd():
+            s.set_var(b, v)
+        mops.append({"o": "set", "k": b, "v": fr(v)})
+        real.append("ok")
+        new = snapshot()
+        for a, sa in members:
+            c.count(("mo-sim", "get-after-set", spec["kinds"][base], sa * sb, float(s.get_variable_nominal(base)) != 1.0))
+            c.hit("mo-sim/get-after-set")
+            exp = sa * sb * v
+            if not abs(new[a] - exp) <= 1e-9 * max(1.0, abs(exp)):
+                c.fail("get_var(%r) after set_var(%r, v) is not sign*sign*v" % (a, b), case,
+                       {"v": v, "signs": [sa, sb], "nominal": float(s.get_variable_nominal(base)), "got": new[a]})
+            mops.append({"o": "get", "k": a})
+            real.append(new[a])
+        for other, om in spec["classes"].items():
+            if other != base:
+                for a, sa in om:
+                    if new[a] != snap[a]:
+                        c.fail("set_var(%r) changed the unrelated variable %r" % (b, a), case,
+                               {"before": snap[a], "after": new[a]})
+        snap = new
+    lines.append({"op": "sim", "rel": rel_table(ar, allnames + [n for n in order if n not in allnames]),
+                  "slots": slots, "nstates": nstates, "vec": [fr(x) for x in vec0], "nominals": noms, "ops": mops})
+    pending.append((case, "sim", real))
+    # a time step keeps all names of a quantity consistent, inputs keep the value set through an alias
+    with quiet_fd():
+        s.reset()
+        for base, members in spec["classes"].items():
+            if spec["kinds"][base] == "control":
+                n, sg = rng.choice(members)
+                s.set_var(n, sg * 0.5)
+        r_up = _call(lambda: s.update(dt))
+    if r_up[0] == "ok":
+        snap = consistent("after-update")
+        for base in spec["classes"]:
+            if spec["kinds"][base] == "control" and snap[base] != 0.5:
+                c.fail("input set through an alias lost its value over update()", case, snap[base])
+    else:
+        c.hit("mo-sim/update-failed")
+    c.sample({"stream": "mo-sim", "model": spec["text"], "classes": spec["classes"], "ops": mops[:6]}, limit=6)
+
+
 def run_models(c, n):
-    pass
+    lines, pending = [], []
+    with Scratch() as folder:
+        for i in range(n):
+            spec = gen_alias_model(c.rng, i)
+            spec["text"] = write_mo(folder, spec["name"], spec["variables"], spec["equations"])
+            if any(len(m) > 1 for m in spec["classes"].values()):
+                c.hit("mo/with-aliases")
+            if any(s < 0 for m in spec["classes"].values() for _, s in m):
+                c.hit("mo/negated")
+            check_optimisation(c, spec, folder, lines, pending)
+            check_simulation(c, spec, folder, lines, pending)
+    outs = c.model(lines)
+    if outs is None:
+        return
+    for mo, (case, what, real) in zip(outs, pending):
+        if mo in ("bad-op", "bad-json"):
+            c.disagree("model driver rejected a model-derived case (%s)" % what, case, mo, None)
+            continue
+        if what == "sim":
+            ok = len(mo) == len(real) and all(
+                (m == r) if isinstance(r, str) else (not isinstance(m, str) or m not in ("KeyError", "ok")) and same(m, r)
+                for m, r in zip(mo, real))
+            if not ok:
+                c.disagree("simulation get_var/set_var sequence", case, mo, real)
+        else:
+            if mo["outs"] != real:
+                c.disagree("%s read through alias names" % what, case, mo["outs"], real)
